@@ -207,6 +207,12 @@ class PoolGen:
         for i in range(n):
             for j in range(i, n):
                 m[i][j] = m[j][i] = self.rng.randint(lo, hi)
+        if self.cfg.get("profile") == "c12" and self.rng.random() < 0.12:
+            # the same quadratic form written as a triangular coefficient matrix (x'Ax only sees A + A'): the
+            # constructors accept it, so queries get it as an operand
+            for i in range(n):
+                for j in range(i + 1, n):
+                    m[i][j], m[j][i] = 2 * m[i][j], 0
         return m
 
     def invertible(self, n, lo=-3, hi=3):
